@@ -42,6 +42,9 @@ func c18Make(adapter int, w *ref.ScriptedPacketWriter) io.Writer {
 	}
 }
 
+// c18WrappedEOF is a reader failure of its own that wraps io.EOF (errors.Is(err, io.EOF) holds, err != io.EOF).
+var c18WrappedEOF = fmt.Errorf("scripted reader: connection lost: %w", io.EOF)
+
 func c18ReadFrom(w io.Writer, r io.Reader) (int64, error) {
 	if rf, ok := w.(io.ReaderFrom); ok {
 		return rf.ReadFrom(r)
@@ -279,8 +282,11 @@ func c18CheckUniform(c c18UniCase) engine.Result {
 		// the injected error or io.ErrUnexpectedEOF, failing write reporting 0 / 188 / 100 bytes
 		variant++
 		sr.FailOnce = variant%2 == 1
-		if variant%3 == 0 {
+		switch variant % 4 {
+		case 0:
 			sr.FailErr = io.ErrUnexpectedEOF
+		case 3:
+			sr.FailErr = c18WrappedEOF // the reader's own failure, which merely wraps io.EOF
 		}
 		spw.Reset(wfail)
 		spw.FailN = []int{0, 188, 100}[variant%3]
@@ -470,8 +476,11 @@ func c18TreeBody(adapter, packets, tail int) func(ch *engine.Chooser) engine.Res
 		spw.FailN = engine.Pick(ch, "failing-write-reports-bytes", []int{0, 188, 100})
 		sr := &ref.ScriptedReader{Data: data, Ch: ch, Faults: true, Align: 188, Empties: true}
 		sr.FailOnce = ch.Bool("reader-error-is-transient")
-		if ch.Bool("reader-error-is-io.ErrUnexpectedEOF") {
+		switch ch.Choose("reader-error-kind", 3) {
+		case 1:
 			sr.FailErr = io.ErrUnexpectedEOF
+		case 2:
+			sr.FailErr = c18WrappedEOF
 		}
 		w := c18Make(adapter, spw)
 		var n int64
@@ -598,7 +607,7 @@ func init() {
 			extra := p == 4 || t == 94
 			scen = append(scen, &c18Tree{Tree: engine.Tree{
 				Name: fmt.Sprintf("readfrom-tree-%dp+%d", p, t),
-				Rule: fmt.Sprintf("ReadFrom through %s over a stream of %d packets + %d bytes with the scripted environment: first choice = failing packet write (none, index 0..%d), then at every Read optionally an empty answer (0,nil) first (at most two in a row), the amount (all that fits, 1, half, up to the next 188-boundary of the stream, +1, -1), a fault (none, error without data, error together with the data; the error sticky or transient, the injected error or io.ErrUnexpectedEOF; a failing packet write reporting 0, 188 or 100 bytes) and, with the last byte, EOF separate / attached; deviations from the all-default run <= 6 (thorough 8); same oracle as readfrom-uniform-chunks; non-trivial = execution with at least one deviation", c18Adapters[(p+2*t)%len(c18Adapters)], p, t, p-1),
+				Rule: fmt.Sprintf("ReadFrom through %s over a stream of %d packets + %d bytes with the scripted environment: first choice = failing packet write (none, index 0..%d), then at every Read optionally an empty answer (0,nil) first (at most two in a row), the amount (all that fits, 1, half, up to the next 188-boundary of the stream, +1, -1), a fault (none, error without data, error together with the data; the error sticky or transient, the injected error, io.ErrUnexpectedEOF or an error that wraps io.EOF; a failing packet write reporting 0, 188 or 100 bytes) and, with the last byte, EOF separate / attached; deviations from the all-default run <= 6 (thorough 8); same oracle as readfrom-uniform-chunks; non-trivial = execution with at least one deviation", c18Adapters[(p+2*t)%len(c18Adapters)], p, t, p-1),
 				Bound: func(r *engine.Run) int {
 					if r.Thorough() {
 						return 8
